@@ -3,7 +3,7 @@
 ENGINES = [
     {'name': 'explore', 'path': 'lib/vt/explore.py',
      'serves_properties': ['C01', 'C02', 'C03', 'C04', 'C06', 'C07',
-                           'C08', 'C09', 'C10', 'C11', 'C13', 'C14',
+                           'C08', 'C09', 'C10', 'C11', 'C14',
                            'C15', 'C17', 'C18', 'C19', 'C20'],
      'kind_free_text': 'bounded exhaustive enumeration driver: shards a finite '
                        'case space over 16 long-lived workers, runs the real '
@@ -16,6 +16,24 @@ NOTES = ('Every check executes the implementation in /repo/src (working tree) '
          'DESIGN.md.')
 
 CHECKS = [
+    {'id': 'C13', 'engine': 'explore', 'level': 'exploration',
+     'design_ref': 'DESIGN.md §4 C13',
+     'technique': 'bounded exhaustive enumeration of (outcome, write pattern) '
+                  'histories on the real Runner with --buffer on/off; token '
+                  'search in the captured output + stream identity at every '
+                  'trace event',
+     'text': 'Every history of <=2 (thorough: 3) tests, each one of 15 outcome '
+             'kinds (incl. multi-event tests) x 7 write patterns (stdout '
+             'with/without newline, stderr, bytes via .buffer, both, write in '
+             'setUp, none) with unique tokens, is run with --buffer on and '
+             'off and with the plain, XML-wrapping and colour formatters; '
+             'tokens of quiet tests must appear nowhere, tokens of failing '
+             'tests exactly once inside that test\'s window after its header, '
+             'and sys.stdout/sys.stderr must be the original objects at every '
+             'test boundary and after the run (without --buffer: at every '
+             'event).',
+     'note': 'Subunit formatters cannot be exercised (library absent). '
+             'KeyboardInterrupt paths belong to C18.'},
     {'id': 'C12', 'engine': 'explore', 'level': 'exploration',
      'design_ref': 'DESIGN.md §4 C12',
      'technique': 'bounded exhaustive enumeration of outcome placements x '
@@ -135,7 +153,7 @@ CHECKS = [
 ]
 
 _PENDING = ['C03', 'C06', 'C07', 'C08', 'C09',
-            'C10', 'C11', 'C13', 'C14', 'C15', 'C17', 'C18',
+            'C10', 'C11', 'C14', 'C15', 'C17', 'C18',
             'C19']
 _DONE = {c['id'] for c in CHECKS}
 NOT_APPLICABLE = [
